@@ -103,7 +103,7 @@ def compare(out, kind, st):
     return d
 
 
-INPUTS = [5, "inp", 2.5, [1, 2], {"k": 1}, b"by", True]
+INPUTS = [5, "inp", 2.5, [1, 2], {"k": 1}, b"by", True, 0, "", [], 0.0, False, {}]
 
 
 def gen_case(rnd, g):
